@@ -521,7 +521,8 @@ def command_line(rng, tool="cnfgen", files=None, want_random=None,
                     (doc or rng.random() < 0.5):
                 # the mapping given as a bipartite graph with one left
                 # vertex per variable of the formula
-                R = rng.randint(2, 5)
+                # (two substitutions multiply: arities stay tiny then)
+                R = rng.randint(2, 5) if len(chain) == 1 else 2
                 targs = rng.choice([["complete", nvars, R],
                                     ["glrd", nvars, R, rng.randint(1, 2)],
                                     ["glrp", nvars, R, 0.5],
